@@ -72,7 +72,14 @@ class StmtMixin(CallMixin):
 
     def is_pure_log_arg(self, call):
         t = ast.unparse(call.func)
-        return t in ("len", "repr", "str", "type", "list", "sorted") or t.endswith(".__name__")
+        if t in ("len", "repr", "str", "type", "list", "sorted") or t.endswith(".__name__"):
+            return True
+        # a call the contract models as effect-free (no modifies, no raise, no suspension): dropped with the statement
+        cm = self.find_call_model(t)
+        if cm is not None and not cm.modifies and not cm.raises and not cm.havoc_all and not cm.ghost:
+            self.trusted_used.add("call-model %s (inside a dropped logging statement): %s" % (cm.pattern, cm.note or "effect-free"))
+            return True
+        return False
 
     def st_Return(self, s, st):
         if s.value is None:
